@@ -1,4 +1,33 @@
-(* C01: statements only. *)
-From PV Require Import Hostlist.HLDefs.
-Theorem C01_placeholder : True. Proof. exact I. Qed.
-Print Assumptions C01_placeholder.
+(* C01 - a host expression targets exactly its mathematical expansion.
+   Statements only; proofs live in Hostlist/*Facts.v. *)
+From PV Require Import Base.DecimalFacts Hostlist.HLDefs Hostlist.HLSpec Hostlist.HLFacts.
+Local Open Scope N_scope.
+
+(* tail coalescing and the in-place width adjustment never change the names *)
+Theorem C01_coalesce_invisible : forall l r,
+  Forall hr_ok l -> hr_ok r -> expand (push_range l r) = expand l ++ range_hosts r.
+Proof. exact push_range_expand. Qed.
+Print Assumptions C01_coalesce_invisible.
+
+(* what makes the width mutation harmless *)
+Theorem C01_width_equiv_sound : forall n wn m wm wn' wm',
+  width_equiv n wn m wm = Some (wn', wm') ->
+  wn' = wm' /\ (forall x, n <= x -> fmt wn' x = fmt wn x) /\ (forall y, m <= y -> fmt wm' y = fmt wm y).
+Proof. exact width_equiv_sound. Qed.
+Print Assumptions C01_width_equiv_sound.
+
+(* a fresh iterator enumerates exactly the expansion, in order, repeats kept *)
+Theorem C01_iterate_exact : forall l, Forall hr_ok l -> iter_all l = expand l.
+Proof. exact iter_all_expand. Qed.
+Print Assumptions C01_iterate_exact.
+
+(* names that differ only in zero padding are different names, equal names have equal numbers *)
+Theorem C01_padding_distinct : forall w a w' b, fmt w a = fmt w' b -> a = b /\ Nat.max w (ndigits a) = Nat.max w' (ndigits b).
+Proof. intros w a w' b H. split; [exact (fmt_inj _ _ _ _ H)|].
+  apply (f_equal (@length N)) in H. now rewrite !fmt_length in H. Qed.
+Print Assumptions C01_padding_distinct.
+
+Example C01_nonvacuous :
+  let l := [mkhr [102;111;111] 8 9 1 false] in let r := mkhr [102;111;111] 10 11 2 false in
+  Forall hr_ok l /\ hr_ok r /\ push_range l r = [mkhr [102;111;111] 8 11 1 false].
+Proof. cbn. repeat split; try lia. repeat constructor; cbn; lia. Qed.
